@@ -13,13 +13,26 @@ BLOCKED = 4294967295
 
 
 def canon(trace):
-    """traces are compared up to and including the first host trap: a real host tears the component
-    down there; what the mock lets the guest do afterwards is not part of the correspondence"""
+    """traces are compared up to and including the first host trap (a real host tears the component down
+    there; what the mock lets the guest do afterwards is not part of the correspondence) or the start of
+    the first Rust panic (`@panic` on the implementation side marks where it starts; what follows up to
+    `panic` is unwinding) — whichever comes first"""
     toks = trace.split(" ")
     for i, t in enumerate(toks):
         if t.startswith("!trap:"):
             return " ".join(toks[:i + 1])
+        if t == "@panic" or t == "panic":
+            return " ".join(toks[:i] + ["panic"])
     return trace
+
+
+def cut_point(toks):
+    """index of the first host trap or of the start of the first Rust panic (None: the script ran to its
+    end): the trace BEFORE it is judged as a prefix, the event itself is classified separately"""
+    for i, t in enumerate(toks):
+        if t.startswith("!trap:") or t == "@panic" or t == "panic":
+            return i
+    return None
 
 
 def codes_for_handle(toks, h, upto):
@@ -58,21 +71,64 @@ def after_done_class(trace):
     return classes
 
 
-STRANDED_OK = ("return-values-lost-in-slab", "lists-never-freed", "writer-stranded", "slab-never-freed", "value-never-dropped",
-               "waitable:dangling-registration", "anomaly:!host-leftovers", "anomaly:!item-ledger", "leak:")
-
-
-def stranded_default_write(script, trace, fails):
-    """export mode: EVENT_CANCEL (`X`) drops the body, a live FutureWriter starts its default write in the
-    background, the task exits: the write (slab, handle, waitable set, task state) is never finished"""
-    if not script.startswith("export"):
-        return False
-    toks = trace.split(" ")
+def stranded_channels(toks):
+    """export mode: channels whose FutureWriter was alive at EVENT_CANCEL: after `X` the default value is
+    made (`def<c>:<id>`), its write blocks (`fwrite<w>:BLOCKED`) and the writable end is never dropped
+    (no `fdw<w>`).  Returns {channel: (writable handle, id of the default value)}"""
     if "X" not in toks:
-        return False
-    if not any(re.fullmatch(r"def\d+:\d+", t) for t in toks):
-        return False
-    return all(f.startswith(STRANDED_OK) for f in fails)
+        return {}
+    x = toks.index("X")
+    handle, opening = {}, None
+    for t in toks:
+        m = re.fullmatch(r"open(\d+)", t)
+        if m: opening = int(m.group(1)); continue
+        m = re.fullmatch(r"fnew(\d+):\d+", t)
+        if m and opening is not None:
+            handle[opening] = int(m.group(1)); opening = None
+    out = {}
+    for i in range(x + 1, len(toks)):
+        m = re.fullmatch(r"def(\d+):(\d+)", toks[i])
+        if not m or int(m.group(1)) not in handle:
+            continue
+        c, w = int(m.group(1)), handle[int(m.group(1))]
+        rest = toks[i + 1:]
+        if f"fwrite{w}:{BLOCKED}" in rest and f"fdw{w}" not in rest:
+            out[c] = (w, int(m.group(2)))
+    return out
+
+
+STRANDED_CLAUSES = ("return-values-lost-in-slab", "slab-never-freed", "writer-stranded")
+
+
+def stranded_split(script, toks, fails):
+    """Split the failing clauses of an export script into those that ARE the known finding
+    `future-default-write-stranded-on-task-cancel` — matched on clause AND position: an end-of-trace
+    clause of a stranded channel (`@c<k>`), the dangling registration of ITS writable handle (`@h<w>`), the
+    ledger entry of ITS default value still lowered, host leftovers with exactly one end per stranded
+    channel, and the (unlocalisable) byte leak — and the rest, which is judged like any other failure."""
+    if not script.startswith("export"):
+        return [], fails
+    k = stranded_channels(toks)
+    if not k:
+        return [], fails
+    mine, rest = [], []
+    for f in fails:
+        cls, _, where = f.rpartition("@")
+        ok = False
+        if cls in STRANDED_CLAUSES and where.startswith("c") and where[1:].isdigit() and int(where[1:]) in k:
+            ok = True
+        elif cls == "waitable:dangling-registration" and where in {"h%d" % w for w, _ in k.values()}:
+            ok = True
+        elif cls.startswith("anomaly:!item-ledger"):
+            m = re.fullmatch(r"anomaly:!item-ledger(\d+):(\d+):lowered:0", cls)
+            ok = bool(m) and k.get(int(m.group(1)), (None, None))[1] == int(m.group(2))
+        elif cls.startswith("anomaly:!host-leftovers"):
+            m = re.fullmatch(r"anomaly:!host-leftovers:sets=(\d+)/ends=(\d+)/ctx=0", cls)
+            ok = bool(m) and int(m.group(2)) == len(k) and 1 <= int(m.group(1)) <= len(k)
+        elif re.fullmatch(r"leak:\d+", cls):
+            ok = True          # bytes held by the unfinished write(s); cannot be attributed more finely
+        (mine if ok else rest).append(f)
+    return mine, rest
 
 
 def run_chan(c, pid, want, only, what_map):
@@ -101,7 +157,7 @@ def run_chan(c, pid, want, only, what_map):
         for _ in range(k):
             r = c.rng.random()
             mode = "cabi2" if r < 0.45 else "cabi1" if r < 0.8 else "export"
-            out.append(rtlib.gen_chan_script(c.rng, mode, maxbody, stats, want, adapter, False, only))
+            out.append(rtlib.gen_chan_script(c.rng, mode, maxbody, stats, want, adapter, True, only))
         return out
     plain = [l for l in corpus if not re.search(r"\b[SF][WR][brs]\dA\b", l)]
     withad = [l for l in corpus if l not in plain]
@@ -117,6 +173,7 @@ def run_chan(c, pid, want, only, what_map):
         cab = [(r, o, m.split("\t")[0]) for r, o, m in zip(reqs, itrace, mout) if not r.startswith("export")]
         def nontriv(r, o): return "=pend" in o
         c.compare("chan-cabi-" + bname, [x[0] for x in cab], [x[1] for x in cab], [x[2] for x in cab], nontrivial=nontriv, canon=canon)
+        failing = []
         for idx, (r, o, m) in enumerate(zip(reqs, itrace, mout)):
             if r.startswith("export"):
                 c.evaluations += 1
@@ -133,27 +190,50 @@ def run_chan(c, pid, want, only, what_map):
             verdict = m.split("\t")[1] if "\t" in m else "spec=missing"
             if verdict == "spec=ok":
                 continue
+            failing.append((idx, r, o, m, verdict))
+        # second stage: a script with a host trap / a Rust panic is judged on the trace BEFORE that event
+        # (closed by `abort end:?:0`: run-level clauses, legality of the host's answers, waitable rules and
+        # anomalies apply; end-of-trace clauses do not); the event itself is classified separately
+        cuts = {}
+        for idx, r, o, m, verdict in failing:
+            toks = o.split(" ")
+            k = cut_point(toks)
+            if k is not None:
+                cuts[idx] = k
+        order = sorted(cuts)
+        pout = run_lines([model], [reqs[i] + "\t" + " ".join(itrace[i].split(" ")[:cuts[i]] + ["abort", "end:?:0"]) for i in order],
+                         timeout=900) if order else []
+        pverdict = {i: (p.split("\t")[1] if "\t" in p else "spec=missing") for i, p in zip(order, pout)}
+        for idx, r, o, m, verdict in failing:
+            toks = o.split(" ")
             pmsg = (iout[idx].split("\t") + [""])[1]
-            if r.startswith("export") and "cannot sleep waiting only on Rust-originating events" in pmsg:
-                skipped["export: task sleeps with no waitable registered (documented panic)"] += 1
-                continue
-            fails = verdict.split(":", 1)[1].split(",") if verdict.startswith("spec=fail:") else ["missing@-"]
             wit = {"request": r, "impl": o, "model": m.split("\t")[0], "verdict": verdict, "panic": pmsg, "build": bname}
-            rest = []
-            adc = after_done_class(o) if "!trap:copy-after-done" in o else set()
-            for f in fails:
-                if "copy-after-done" in f:
-                    continue
-                rest.append(f)
-            for k in sorted(adc):
-                c.spec_violation(k, what_map.get(k, "a stream operation reaches the host on an end that is done (host trap)"), wit)
-            if adc:
-                continue        # what follows a host trap is not judged
-            if rest and stranded_default_write(r, o, rest):
+            judged = toks
+            if idx in cuts:
+                k = cuts[idx]
+                judged = toks[:k]
+                verdict = pverdict[idx]
+                wit["verdict_of_prefix_before_cut"] = verdict
+                wit["cut"] = toks[k]
+                c.corr.setdefault("chan-prefix-before-trap-or-panic", {"cases": 0, "mismatches": 0})["cases"] += 1
+                if toks[k] == "!trap:copy-after-done":
+                    for cls in sorted(after_done_class(" ".join(toks[:k + 2]))):
+                        c.spec_violation(cls, what_map.get(cls, "a stream operation reaches the host on an end that is done (host trap)"), wit)
+                elif toks[k].startswith("!trap:"):
+                    c.spec_violation("chan-host-trap-" + re.sub(r"[^a-z-]+", "-", toks[k][6:])[:50],
+                                     "the guest makes the host trap (" + toks[k] + ")", wit)
+                elif r.startswith("export") and "cannot sleep waiting only on Rust-originating events" in pmsg:
+                    skipped["export: task sleeps with no waitable registered (documented panic; the trace before it is judged)"] += 1
+                else:
+                    c.spec_violation("chan-panic", "the runtime panics: " + pmsg[:200], wit)
+            fails = [] if verdict == "spec=ok" else verdict.split(":", 1)[1].split(",") if verdict.startswith("spec=fail:") else ["missing@-"]
+            fails = [f for f in fails if f not in ("anomaly:@panic@-",)]
+            mine, rest = stranded_split(r, judged, fails)
+            if mine:
                 c.spec_violation("future-default-write-stranded-on-task-cancel",
                                  "export task cancelled (EVENT_CANCEL) while a FutureWriter is alive: its default write is started "
-                                 "in the background and never finished (slab, writable end, waitable set and task state leak)", wit)
-                continue
+                                 "in the background and never finished (slab, writable end, waitable set and task state leak)",
+                                 dict(wit, clauses_attributed=mine))
             for k in sorted({re.sub(r"[^a-z!-]+", "-", f.split("@")[0]).strip("-")[:70] for f in rest}):
                 c.spec_violation("chan-" + k, what_map.get(k.split("-")[0], "the real trace violates the spec side (" + k + ")"), wit)
         if first:
